@@ -1029,6 +1029,19 @@ pub fn run(opts: &Opts, out: &mut Emitter) {
             out.case("negated-literal", || json!({"input": text, "obs": observe(&text)}));
         }
     }
+    // two literal bounds of a validity interval from the edges of the numerals the grammar admits, in both orders
+    // (whatever an analysis computes from two literals must be computed without leaving its integer type)
+    {
+        let edges = ["0", "1", "-1", "9223372036854775807", "-9223372036854775807", "-2", "4294967296"];
+        for a in edges {
+            for b in edges {
+                let text = format!("party A;\ntx t() {{\n  output {{\n    to: A,\n    amount: Ada(1),\n  }}\n  validity {{\n    since_slot: {a},\n    until_slot: {b},\n  }}\n}}\n");
+                out.case("literal-pairs", || json!({"input": text, "obs": observe(&text)}));
+                let text2 = format!("party A;\ntx t() {{\n  output {{\n    to: A,\n    amount: Ada({a}) - Ada({b}),\n  }}\n  metadata {{\n    {a}: {b},\n  }}\n}}\n");
+                out.case("literal-pairs", || json!({"input": text2, "obs": observe(&text2)}));
+            }
+        }
+    }
     // unclosed: an opener of every bracketing construct written 1..64 times and never closed (a comment inside a
     // comment, a string, braces, parentheses, brackets), with something between the copies so that no closer appears
     // by accident, at the start of a text and after a valid program: the answer is an error, at once
